@@ -407,8 +407,6 @@ class RegTrack(Mon.Monitor):
     def after(self, sim, op, out):
         reg = op.get("reg")
         if reg is None:
-            if op.get("f", "").startswith("F1") and out[0] == "exc":
-                sim.fired(op["f"])
             return
         if out[0] == "ok":
             sim.user["model"].apply(reg)
